@@ -439,7 +439,10 @@ class Tokenizer(object):
                         #pushChar(token)
                         #token = EscapeSequence()
                         token = Space(' ')
-                        self.state = STATE_S
+                        # The line ends here: the next one starts in
+                        # state N, where blanks are skipped and an empty
+                        # line is a paragraph break
+                        self.state = STATE_N
 
                     else:
                         # Control symbol: whitespace after it is significant
